@@ -56,6 +56,8 @@ package main
 //@ extern Recover(b bool) (o Option)
 //@ extern ParseReader(filename string, r io.Reader, opts []Option) (g any, gerr error)
 //@   ensures gerr == nil ==> is(g, "*ast.Grammar") && as(g, "*ast.Grammar") != nil
+// front-end guarantee (assumed, C03 is not applicable): every rule of the grammar it returns is a node with a name
+//@   ensures gerr == nil ==> forall k int :: {as(g, "*ast.Grammar").Rules[k]} 0 <= k && k < len(as(g, "*ast.Grammar").Rules) ==> as(g, "*ast.Grammar").Rules[k] != nil && as(g, "*ast.Grammar").Rules[k].Name != nil
 
 //@ extern ast.Optimize(g *ast.Grammar, alternateEntrypoints []string)
 //@ extern bytes.NewBuffer(buf []byte) (b *bytes.Buffer)
@@ -74,8 +76,10 @@ package main
 //@   nosafety
 //@   before var.exit assert [nonzero C13] code != 0
 
+// the operating system starts a program with its own name as the first argument (assumption)
+//@ axiom os-args: len(os.Args) >= 1
 //@ func main()
-//@   nosafety
+//@   safety C13
 //@   modifies all flag.FlagSet.Usage
 // exit status 0 is only produced for the help page
 //@   before var.exit assert [zero-only-for-help C13] code != 0 || *shortHelpFlag || *longHelpFlag
